@@ -4,6 +4,7 @@
 // input v = ctor, arg, kind      ctor: 0 Cube 1 Sphere 2 Cylinder 3 Extrude 4 Revolve 5 LevelSet
 //                                kind: 0 NaN 1 +inf 2 -inf
 #include <cmath>
+#include <unistd.h>
 #include "replay.h"
 #include "manifold/manifold.h"
 using namespace manifold;
@@ -13,7 +14,8 @@ static const int kArgs[6] = {3, 1, 3, 4, 1, 5};
 // Revolve(+inf) is clamped to a full revolution by design (revolveDegrees > 360 -> 360): a usable result
 static bool acceptable_usable(int ctor, int arg, int kind) { return ctor == 4 && kind == 1; }
 // input_nonfinite: v = case, kind   -- a non-finite number inside a polygon / produced by a warp callback
-//   case 0 Extrude polygon x, 1 Extrude polygon y, 2 Revolve polygon x, 3 Revolve polygon y, 4 Warp x, 5 Warp y, 6 Warp z
+//   case 0 Extrude polygon x, 1 Extrude polygon y, 2 Revolve polygon x, 3 Revolve polygon y, 4 Warp x, 5 Warp y, 6 Warp z,
+//   7 Translate + union, 8 Scale + union, 9 Rotate + union, 10 Hull point x, 11 Hull point z
 static std::string input_nonfinite(int c, int kind) {
   const double b = bad(kind);
   Polygons a = {{{0, 0}, {1, 0}, {1, 1}, {0, 1}}};
@@ -24,7 +26,13 @@ static std::string input_nonfinite(int c, int kind) {
     case 1: a[0][2].y = b; m = Manifold::Extrude(a, 1); break;
     case 2: r[0][2].x = b; m = Manifold::Revolve(r, 8); break;
     case 3: r[0][2].y = b; m = Manifold::Revolve(r, 8); break;
-    default: { const int ax = c - 4; m = Manifold::Cube().Warp([ax, b](vec3& v) { if (v.x > 0.5) v[ax] = b; }); }
+    case 4: case 5: case 6: { const int ax = c - 4; m = Manifold::Cube().Warp([ax, b](vec3& v) { if (v.x > 0.5) v[ax] = b; }); break; }
+    // a non-finite pending transform consumed by the disjoint-union fast path (CsgLeafNode::Compose)
+    case 7: m = Manifold::Cube().Translate({b, 0, 0}) + Manifold::Cube().Translate({5, 0, 0}); break;
+    case 8: m = Manifold::Cube().Translate({5, 0, 0}) + Manifold::Cube().Scale({1, b, 1}); break;
+    case 9: m = Manifold::Cube().Rotate(b, 0, 0) + Manifold::Cube().Translate({5, 0, 0}); break;
+    // a non-finite point in a point set
+    default: { std::vector<vec3> p = {{0, 0, 0}, {1, 0, 0}, {0, 1, 0}, {0, 0, 1}, {1, 1, 1}}; p[4][c == 10 ? 0 : 2] = b; m = Manifold::Hull(p); }
   }
   auto st = m.Status();
   MeshGL64 g = m.GetMeshGL64();
@@ -36,6 +44,29 @@ static std::string input_nonfinite(int c, int kind) {
   if (c == 2 && st == Manifold::Error::NoError && !m.IsEmpty()) return "";
   if (st == Manifold::Error::NoError) return std::string("non-finite input gave Status NoError (") + (m.IsEmpty() ? "empty-but-valid)" : "non-empty)");
   return m.IsEmpty() ? "" : "error status but not empty";
+}
+// degenerate_polygon: v = case, number of vertices (0..2) of a contour that bounds no area
+//   case 0 Extrude {contour, square}, 1 Extrude {contour}, 2 Revolve {contour}, 3 Revolve {contour, square}
+static std::string degenerate_polygon(int c, int npts) {
+  SimplePolygon sq = {{1, 0}, {2, 0}, {2, 1}, {1, 1}}, d;
+  for (int i = 0; i < npts; ++i) d.push_back({5.0 + i, 5.0 + i});
+  alarm(60);   // "never loops forever": a hang ends the run with SIGALRM
+  Manifold m;
+  switch (c) {
+    case 0: m = Manifold::Extrude({d, sq}, 1); break;
+    case 1: m = Manifold::Extrude({d}, 1); break;
+    case 2: m = Manifold::Revolve({d}, 8); break;
+    default: m = Manifold::Revolve({d, sq}, 8);
+  }
+  auto st = m.Status();
+  MeshGL64 g = m.GetMeshGL64();
+  alarm(0);
+  const size_t nv = g.NumVert();
+  for (auto i : g.triVerts) if (i >= nv) return "a triangle references vertex " + std::to_string(i) + " of " + std::to_string(nv);
+  for (size_t t = 0; t + 2 < g.triVerts.size(); t += 3)
+    if (g.triVerts[t] == g.triVerts[t + 1] || g.triVerts[t + 1] == g.triVerts[t + 2] || g.triVerts[t] == g.triVerts[t + 2]) return "a triangle repeats a vertex";
+  if (st != Manifold::Error::NoError) return m.IsEmpty() ? "" : "error status but not empty";
+  return m.Volume() >= 0 ? "" : "NoError with volume " + std::to_string(m.Volume());
 }
 // revolve_angle: v = angle in millidegrees
 static std::string revolve_angle(long md) {
@@ -95,6 +126,15 @@ int main(int argc, char** argv) {
     report_summary(1, "input_nonfinite");
     return 0;
   }
+  if (!strcmp(mode, "run") && argc > 2 && !strcmp(argv[2], "degenerate_polygon")) {
+    auto in = parse_nums(argc > 3 ? argv[3] : "");
+    while (in.size() < 2) in.push_back(0);
+    report_current("degenerate_polygon", in);
+    auto s = degenerate_polygon((int)in[0], (int)in[1]);
+    if (!s.empty()) { report_fail("degenerate_polygon", in, s); return 1; }
+    report_summary(1, "degenerate_polygon");
+    return 0;
+  }
   if (!strcmp(mode, "run") && argc > 2 && !strcmp(argv[2], "revolve_angle")) {
     auto in = parse_nums(argc > 3 ? argv[3] : "");
     while (in.size() < 1) in.push_back(0);
@@ -130,7 +170,15 @@ int main(int argc, char** argv) {
     ++runs;
     if (!s.empty()) { report_fail("revolve_angle", in, s); ++badn; }
   }
-  for (int c = 0; c < 7; ++c)
+  for (int c = 0; c < 4; ++c)
+    for (int n = 0; n < 3; ++n) {
+      std::vector<long long> in = {c, n};
+      report_current("degenerate_polygon", in);
+      auto s = degenerate_polygon(c, n);
+      ++runs;
+      if (!s.empty()) { report_fail("degenerate_polygon", in, s); ++badn; }
+    }
+  for (int c = 0; c < 12; ++c)
     for (int k = 0; k < 3; ++k) {
       std::vector<long long> in = {c, k};
       report_current("input_nonfinite", in);
@@ -138,6 +186,6 @@ int main(int argc, char** argv) {
       ++runs;
       if (!s.empty()) { report_fail("input_nonfinite", in, s); ++badn; }
     }
-  report_summary(runs, "ctor_nonfinite_arg,revolve_angle,input_nonfinite");
+  report_summary(runs, "ctor_nonfinite_arg,revolve_angle,degenerate_polygon,input_nonfinite");
   return badn ? 1 : 0;
 }
